@@ -8,12 +8,15 @@ PROP = dict(
     harness_bin="c36",
     mismatch_is_violation=True,
     rule="host calls through the bindings that abra_core::generate_host_function_enum generates (run by the build script of "
-         "harness/c36gen on every build) for a fixed signature file: 62 #host functions of arity 0-4 over int, float, bool, "
+         "harness/c36gen on every build) for a fixed signature file: 65 #host functions of arity 0-4 over int, float, bool, "
          "string, void, option, result, array, tuples of width 2-4 and 5, 7, 12, seven #host structs (void fields) and four #host enums, five of them declared in "
          "other modules that the host file imports in all four import forms (`use m`, `use m.(x)`, `use m except x`, `use m as p`: D95 regression), "
          "(bare, one-field, two-field and array payload variants), nested to depth 3; per signature (quick) 7 / (thorough) 120 "
          "cases with seeded random argument values (written as Abra literals; in 2 of 5 cases half of all arrays, strings and options are empty/none so that empty values sit beside non-empty siblings among the arguments and inside arrays, tuples and structs) and an independent random result value (incl. "
          "non-finite floats, empty arrays, multibyte strings); each case is one Abra program compiled and run by the real "
+         "compiler and VM in one of four call shapes (single call; the same variable in two argument positions; the same variables passed to two successive calls; "
+         "the returned value passed back), optionally with one array object bound once and used in two places of the arguments, arrays then having >= 2 elements with first != last; "
+         "after the call(s) the program re-reads every argument (and a passed-back result) and prints it; "
          "compiler and VM, whose host call is served with the generated HostFunctionArgs::from_vm / HostFunctionRet::into_vm; "
          "compared with the model: the arguments the host read (parameter order), the text the Abra program prints for the "
          "returned value, the pending flag. distinct = distinct (signature, values); non-trivial = the case involves a "
@@ -26,12 +29,15 @@ PROP = dict(
         "VM heap objects are treated as immutable trees (object identity, allocation and collection are outside this property)",
     ],
     assumptions=[
+        "the Marshal model has no heap (VM objects are immutable trees), so `decoding an argument does not change the caller's object` holds in the model by construction and is "
+        "checked on the implementation by a Rust-side oracle: every argument is re-read on the Abra side after the call(s) and compared with its value before, and shared/aliased "
+        "array objects are decoded several times (a model with a mutable heap and a frame theorem is not claimed)",
         "two hard probes build the bindings generated for (a) a host file with `use m as p` and (b) two #host types of one name in two modules, embedded as "
         "/repo/e2e_tests/test_host_funcs does (`mod generated; use generated::*;`): D104/D105; the main child crate uses the same embedding, so the run-time "
         "round trip of all four import forms also depends on the generated code compiling there",
         "1-tuples are not expressible as Abra host signatures and are not exercised",
         "signatures are built from the supported types only (functions, polymorphic and wildcard types are rejected by name_of_ty with a *NotSupported name)",
-        "the quantifier over signatures is carried by the induction on types in the theorems; the correspondence samples it on the fixed 62-signature file",
+        "the quantifier over signatures is carried by the induction on types in the theorems; the correspondence samples it on the fixed 65-signature file",
     ],
     design_ref="DESIGN.md §6 C36",
     level_text="Theorems by induction on the type, for all values and all stacks, about a model of VmType::{to_vm,from_vm}, the generated #host struct/enum "
